@@ -240,7 +240,7 @@ func ruleC07(c *Ctx) {
 		}
 		c.count("C07-R2/unsigned", nU)
 		c.count("C07-R2/signed", nS)
-		c.floor("C07-R2/unsigned", 2)
+		c.floor("C07-R2/unsigned", 1)
 		c.floor("C07-R2/signed", 1)
 	}
 
